@@ -31,6 +31,7 @@ func (P) Rule() string {
 		"(b') a `bulk N i…` history (N = 255..4098 requests, all but 1-17 completed, one export-and-reset, then a duplicate and a response for every entry left), or " +
 		"(c) a concurrent run (2-8 goroutines; random programs over own/shared IDs with slow and failing bodies, or duplicate storms: every goroutine calls about the same ID, held in its body read " +
 		"until all are in flight) checked for linearisability, the linearisation replayed by the model; " +
+		"(d) an `hpark` schedule: a history, then an export / reset HANDLER call during whose answer another connection makes 1-2 calls (every such schedule over 2 IDs); " +
 		"distinct by hash of the op list; non-trivial when some export-and-reset returned at least one completed entry while keeping at least one pending entry"
 }
 
@@ -594,6 +595,8 @@ func (e *ex) Do(op string) core.Result {
 		}
 		impl, fail, sig := e.s.apply("res", f[1], msg{ctype: string(ct), fault: ft, shape: sh})
 		return core.Result{Impl: impl, Fail: fail, Sig: sig}
+	case f[0] == "hpark" && len(f) == 4:
+		return runHPark(f[1], f[2], f[3])
 	case f[0] == "bulk" && len(f) == 3:
 		return runBulk(f[1], f[2])
 	case f[0] == "opt" && (len(f) == 4) && (f[1] == "post" || f[1] == "body"):
@@ -750,7 +753,7 @@ func (P) Nontrivial(ops []string, impl []string) bool {
 			scan(ks, strings.Split(impl[i], "|"))
 			continue
 		}
-		if f[0] == "conc" {
+		if f[0] == "conc" || f[0] == "hpark" {
 			nt = nt || strings.HasPrefix(impl[i], "lin ")
 			continue
 		}
